@@ -489,7 +489,9 @@ def search_world(run):
 PROPS['C11'] = {
     'modules': ['IpcModel.Props.C11'],
     'theorems': ['C11.C11_own', 'C11.C11_restore', 'C11.C11_close_once', 'Ledger.inv_step', 'Ledger.roots_coincide', 'C11.C11_shape'],
-    'scenarios': plus(world_scen(['default'], 300, 6000), res_scen(400, 8000)),
+    'scenarios': plus(world_scen(['default'], 300, 6000), res_scen(400, 8000),
+                      lambda tier, seed: [{'build': 'memfd', 'args': ['res', '--seed', str(seed + 5), '--n', str(2000 if tier == 'thorough' else 150), '--tier', tier]}]),
+    'builds': ['default', 'memfd'],
     'search': search_world,
     'rule': ('world: seeded single-threaded programs of ~40 public-API operations over up to 6 channels (create, clone, drop, send small/multi-packet with embedded senders / '
              'moved receivers / regions, the three receive calls, drop receiver with backlog): the number of open library descriptors after every step is compared with '
